@@ -253,7 +253,8 @@ def rr_rules(ctx, A):
             every = not cycle_without(rr, L[1], h, {fc['block']})
             ctx.ob(['C01', 'C14', 'C03'], 'R-DOM', 'RR|every-field-pushed', every, 'every trip around the field loop pushes the field region (no field is skipped)', loc(fc['span']))
             sty, src = loop_source(rr, L)
-            unadapted = sty is not None and re.match(r'^std::vec::IntoIter<\(std::option::Option<usize>, %s\)>$' % re.escape(REGION), sty)
+            # the vector's own iterator (an adapter would show up as the iterator type); the element may be a tuple or a struct
+            unadapted = sty is not None and re.match(r"^(std::vec::IntoIter<|std::slice::Iter<'_, )[^<>]*(<[^<>]*>[^<>]*)*>$", sty) and not re.search(r'std::iter::', sty)
             srcs = strip(src) if src else None
             direct = srcs is not None and is_call(srcs, 'into_iter') and strip(srcs[2][0])[0] == 'arg'
             ctx.ob(['C01', 'C03'], 'R-ITER', 'RR|field-loop-unadapted', bool(unadapted and direct),
